@@ -667,7 +667,10 @@ class Polyhedron(Shape3D):
         points = self.vertices[1:] - self.vertices[0]
         half_point_lengths = np.sum(points * points, axis=1) / 2
         x, resids, _, _ = np.linalg.lstsq(points, half_point_lengths, None)
-        if len(self.vertices) > 4 and not np.isclose(resids, 0):
+        # The residual has dimension length^4, so it is compared relative to the
+        # right-hand side rather than to an absolute number.
+        atol = 1e-8 * np.sum(half_point_lengths * half_point_lengths)
+        if len(self.vertices) > 4 and not np.isclose(resids, 0, atol=atol):
             raise RuntimeError("No circumsphere for this polyhedron.")
 
         return Sphere(np.linalg.norm(x), x + self.vertices[0])
@@ -706,7 +709,8 @@ class Polyhedron(Shape3D):
         b = np.sum(self.normals * self.vertices[first_vertices], axis=-1)
         a = np.hstack((self.normals, np.ones((self.num_faces, 1))))
         x, resids, _, _ = np.linalg.lstsq(a, b, None)
-        if len(self.vertices) > 4 and not np.isclose(resids, 0):
+        # The residual has dimension length^2; compare it relative to the radius.
+        if len(self.vertices) > 4 and not np.isclose(resids, 0, atol=1e-8 * x[3] ** 2):
             raise RuntimeError("No insphere for this polyhedron.")
 
         return Sphere(x[3], x[:3])
